@@ -166,10 +166,20 @@ def inputs(ctx):
         sc = rng.choice([2.0 ** -20, 1e-6, 2.0 ** 20, 1e7])
         cs.append(P * sc)
         cs.append(np.column_stack([P[:, 0] * sc, P[:, 1]]) if rng.random() < 0.5 else np.column_stack([P[:, 0], P[:, 1] * sc]))
+    # the smallest curves of the quantifier (n = 3, 4; the L-method needs 5): every loop bound and tail guard is at its edge
+    small = []
+    for n in (3, 4):
+        small += curves.grid_curves(n, 3, spacings=(1, 2))
+    small = rng.sample(small, min(len(small), 120 if ctx.quick else 1200))
+    small += [curves.mk(range(4), [10, 4, 1, 0]), curves.mk(range(4), [9, 1, 0.5, 0]), curves.mk(range(3), [5, 1, 0])]
     longs = [curves.random_curve(rng, n, n, kind=rng.choice([0, 2, 6])) for n in ([700, 2500] if ctx.quick else [700, 2500, 2500, 6000])]
     k = 0
     for P in longs:                 # long curves (size-dependent code paths)
         for w in ["curvature", "menger", "dfdt_get", "dfdt"] + ([("lget", "pointfit", "rss"), ("lknee", "pointfit", "adjusted", 10)] if len(P) <= 800 else []):
+            items.append(("d%d" % k, P.tolist(), w))
+            k += 1
+    for P in small:
+        for w in ["curvature", "menger", "dfdt_get", "dfdt"]:
             items.append(("d%d" % k, P.tolist(), w))
             k += 1
     for P in cs:
